@@ -212,6 +212,16 @@ def large_count_cases(chk):
     out.append(("D2", 2, [2, 2, 100, 0, 0, [1, 2], [[cell, []], [[], cell[:257]]]]))
     for k, f, v in out:
         chk.count("large counts: " + k)
+    # counts that coincide with a constant of the format: the EMG sample count is stored with a bias of 49 (49 samples are
+    # stored as 0, 48 as -1), records are 256 / 32 / 288 / 64 bytes wide, a camera record has 70 coefficients
+    for nfr in (48, 49, 50, 64, 70, 255, 256, 257, 288):
+        for kind in ("EM", "D3", "FT", "PD"):
+            for _ in range(20):
+                f, v = blocks.gen(kind, rng, big=2, nframes=nfr)
+                if blocks.nontrivial(kind, v):
+                    break
+            out.append((kind, f, v))
+            chk.count("frame count equal to a constant of the format (48-50, 64, 70, 255-257, 288)")
     return out
 
 
@@ -590,6 +600,91 @@ def check_stray_attributes(chk, pid, n):
                 chk.violation("%s: bytes written differ from the layout-driven encoder" % what, case, True)
         elif i.get("dec") != v:
             chk.violation("%s: decode(encode(b)) differs from b at %s" % (what, fdiff(i.get("dec"), v) if i.get("dec") else i.get("dec_exc")), case, True)
+        if chk.n_found() >= 3:
+            return
+
+
+def check_reassigned_arrays(chk, pid, n):
+    """pid in C01 / C02 / C06 on blocks whose items got their arrays REASSIGNED after construction, through the public
+    attributes, to arrays holding the same numbers in another dtype (float64 — what np.append / np.concatenate / a
+    Python-float computation hands back): sizes, bytes and the round trip are those of the same values"""
+    rng = common.rng_for(chk.seed, pid, "reassigned")
+    attrs = {"D3": ("_tracks", ("data",)), "EM": ("_signals", ("data",)), "FT": ("_tracks", ("application_point", "force", "torque")),
+             "PD": ("_platforms", ("application_point", "force", "torque")), "EV": ("events", ("values",))}
+    cases = []
+    for i in range(n):
+        kind = list(attrs)[i % len(attrs)]
+        for _ in range(20):
+            fmt, v = blocks.gen(kind, rng, big=3)
+            if blocks.nontrivial(kind, v):
+                break
+        cases.append((kind, fmt, v))
+    mres = model_eval(cases, want=("wfb", "enc", "size"))
+    for (kind, fmt, v), m in zip(cases, mres):
+        chk.count("item arrays reassigned as float64")
+        chk.note_case(("reassigned arrays", kind, fmt, v), blocks.nontrivial(kind, v))
+        case = {"kind": kind, "fmt": fmt, "v": v, "how": "every item's arrays reassigned (public attributes) to float64 arrays with the same numbers"}
+        what = "%s fmt=%d with item arrays reassigned as float64" % (kind, fmt)
+        try:
+            o = blocks.build(kind, fmt, v)
+            lst, names = attrs[kind]
+            for it in getattr(o, lst):
+                for a in names:
+                    setattr(it, a, np.asarray(getattr(it, a)).astype("<f8"))
+            nb = int(o.nBytes)
+            b = blocks.impl_write(o)
+        except Exception as e:
+            chk.violation("%s: cannot be sized / encoded: %s" % (what, common.exc_info(e)), case, True)
+            continue
+        i = impl_decode(kind, fmt, b)
+        if pid == "C02":
+            if not (nb == len(b) == i.get("consumed")):
+                chk.violation("%s: nBytes=%r, bytes written=%d, bytes consumed=%r" % (what, nb, len(b), i.get("consumed")), case, True)
+        elif pid == "C06":
+            if b != m["enc"]:
+                chk.violation("%s: bytes written differ from the layout-driven encoder" % what, case, True)
+        elif i.get("dec") != v:
+            chk.violation("%s: decode(encode(b)) differs from b at %s" % (what, fdiff(i.get("dec"), v) if i.get("dec") else i.get("dec_exc")), case, True)
+        if chk.n_found() >= 3:
+            return
+
+
+def check_partial_gaps(chk, pid, n):
+    """pid in C01 / C02 / C05 / C06 on recordings whose missing frames are marked the way acquisition software marks them:
+    NaN in the first component (the one the library looks at), left-over numbers in the others.  Such a frame is a
+    missing frame: the value — and the model side — is that of the recording with those frames missing."""
+    rng = common.rng_for(chk.seed, pid, "partialgaps")
+    cases = []
+    for i in range(n * 3):
+        kind = ("FT", "PD", "D3")[i % 3]
+        fmt, v = blocks.gen(kind, rng, big=3, nframes=rng.choice((4, 7, 12, 20)))
+        if "[]" in repr(v[FRAME_SLOTS[kind][1]]) and blocks.nontrivial(kind, v):
+            cases.append((kind, fmt, v))
+        if len(cases) >= n:
+            break
+    mres = model_eval(cases, want=("wfb", "enc", "size"))
+    for (kind, fmt, v), m in zip(cases, mres):
+        chk.count("gaps marked by NaN in the first component only")
+        chk.note_case(("partial gaps", kind, fmt, v), True)
+        case = {"kind": kind, "fmt": fmt, "v": v, "how": "missing frames carry NaN in their first component and numbers in the others"}
+        what = "%s fmt=%d, gaps marked by NaN in the first component only" % (kind, fmt)
+        blocks.PARTIAL_GAPS = True
+        try:
+            i = impl_roundtrip(kind, fmt, v)
+        finally:
+            blocks.PARTIAL_GAPS = False
+        if "build_err" in i or i.get("enc") is None:
+            chk.violation("%s: cannot be built / encoded: %s" % (what, i.get("build_err") or i.get("enc_exc")), case, True)
+        elif pid == "C02":
+            if not (i["nbytes"] == len(i["enc"]) == i.get("consumed")):
+                chk.violation("%s: nBytes=%r, bytes written=%d, bytes consumed=%r" % (what, i["nbytes"], len(i["enc"]), i.get("consumed")), case, True)
+        elif pid == "C06":
+            if i["enc"] != m["enc"]:
+                chk.violation("%s: bytes written differ from the layout-driven encoder" % what, case, True)
+        elif i.get("dec") != v:
+            chk.violation("%s: decode(encode(b)) differs from b at %s" % (what, fdiff(i.get("dec"), v) if i.get("dec") else i.get("dec_exc")), case, True)
+        elif pid == "C05" and i["enc"] != m["enc"]:
+            chk.violation("%s: the stored runs / samples differ from Chunks.v's" % what, dict(case, correspondence="enc"), False)
         if chk.n_found() >= 3:
             return
 
